@@ -189,7 +189,7 @@ def run(ck):
     tran = all(ok and cg.parse_nat_list(out) is not None for ok, out in outs)
     terr = next((out[-600:] for ok, out in outs if not ok), '')
     ck.obligation(f'Coq transcription of TechLib.__init__ (re.split on ";" + white space, cell name up to the first space, bench.parse, '
-                  f'eliminate_1to1_forks raising, pins from io_nodes, brace products, dict insertion) = TechLib(text).cells on {len(tcases)} generated '
+                  f'eliminate_1to1_forks (which leaves an undriven internal signal alone since the fix of D38), pins from io_nodes, brace products, dict insertion) = TechLib(text).cells on {len(tcases)} generated '
                   f'library texts ({n_raise} on which the constructor raises: both must reject) and on the five built-in library texts',
                   tran and not tbad, 'correspondence', f'failing cases {tbad[:2]} {terr}')
     if tbad and not fails:
